@@ -312,6 +312,14 @@ func runWrite(t *testing.T, seed int64, big, small, writers int, real bool) (lin
 				sent = append(sent, d)
 			}
 		}
+		expectBytes := 0
+		for _, msgs := range jobs {
+			for _, m := range msgs {
+				if b, err := m.MarshalWithEncoder(tcpcoder.DefaultCoder); err == nil {
+					expectBytes += len(b)
+				}
+			}
+		}
 		start := make(chan struct{})
 		var wg sync.WaitGroup
 		var werr atomic.Int32
@@ -329,6 +337,13 @@ func runWrite(t *testing.T, seed int64, big, small, writers int, real bool) (lin
 		}
 		close(start)
 		wg.Wait()
+		if real {
+			// every write has returned, so every byte has been read from the pipe by the peer's collector; wait until it
+			// has also filed them (a collector goroutine that is descheduled on a loaded machine must not look like a short stream)
+			for i := 0; i < 1000 && peer.Len() < expectBytes; i++ {
+				time.Sleep(5 * time.Millisecond)
+			}
+		}
 		settle()
 		frames := peer.TakeFrames()
 		rest := peer.TakeBytes()
